@@ -419,21 +419,55 @@ fn try_corrupt(orig: &[u8], bits: &[usize]) -> (bool, bool) {
     (acc, del)
 }
 
-/// C04: corruption campaigns with aggregated, lossless observations
+/// C04: corruption campaigns with aggregated, lossless observations (frames are processed in parallel)
 pub fn rec_corrupt(a: &Args, out: &mut Out) {
     let n = a.num("n", 300);
     let pairs = a.num("pairs", 2000) as usize;
     let interiors = a.num("interiors", 1) as usize;
+    let threads = a.num("threads", 12) as usize;
     let mut r = rng(a.seed(), 4);
     let nums = supported_numbers();
-    for k in 0..n {
-        let f = match k % 5 {
-            0 => mk_frame(&random_payload(&mut r, (k as usize / 5) % 6), 0),
-            _ => random_frame(&mut r, &nums),
-        };
+    let frames: Vec<(Vec<u8>, u64)> = (0..n)
+        .map(|k| {
+            let f = match k % 5 {
+                0 => mk_frame(&random_payload(&mut r, (k as usize / 5) % 6), 0),
+                _ => random_frame(&mut r, &nums),
+            };
+            (f, r.gen())
+        })
+        .collect();
+    let next = std::sync::atomic::AtomicUsize::new(0);
+    let results: std::sync::Mutex<Vec<Option<Vec<J>>>> = std::sync::Mutex::new((0..frames.len()).map(|_| None).collect());
+    std::thread::scope(|s| {
+        for _ in 0..threads {
+            s.spawn(|| {
+                crate::util::install_panic_hook();
+                loop {
+                    let i = next.fetch_add(1, std::sync::atomic::Ordering::SeqCst);
+                    if i >= frames.len() {
+                        break;
+                    }
+                    let evs = corrupt_campaign(&frames[i].0, frames[i].1, pairs, interiors);
+                    results.lock().unwrap()[i] = Some(evs);
+                }
+            });
+        }
+    });
+    for evs in results.into_inner().unwrap().into_iter().flatten() {
+        for e in evs {
+            out.emit(e);
+        }
+    }
+}
+
+fn corrupt_campaign(f: &[u8], seed: u64, pairs: usize, interiors: usize) -> Vec<J> {
+    let mut r = rng(seed, 44);
+    let mut evs: Vec<J> = vec![];
+    {
+        let f = f.to_vec();
         let allowed = allowed_bits(f.len());
-        let mut emit = |class: &str, tried: usize, acc: Vec<J>, del: Vec<J>, out: &mut Out| {
-            out.emit(json!({"ev": "Corrupt", "frame": bytes_json(&f), "class": class, "tried": tried, "interiors": interiors, "accepted": acc, "delivered": del}));
+        let mut emit = |class: &str, tried: usize, acc: Vec<J>, del: Vec<J>| {
+            evs.push(json!({"ev": "Corrupt", "frame": bytes_json(&f), "class": class, "tried": tried, "interiors": interiors, "accepted": acc, "delivered": del}));
         };
         // every single bit
         let (mut acc, mut del) = (vec![], vec![]);
@@ -446,7 +480,7 @@ pub fn rec_corrupt(a: &Args, out: &mut Out) {
                 del.push(json!([b]));
             }
         }
-        emit("single", allowed.len(), acc, del, out);
+        emit("single", allowed.len(), acc, del);
         // pairs: all for short frames, sampled otherwise
         let (mut acc, mut del) = (vec![], vec![]);
         let mut tried = 0;
@@ -463,7 +497,7 @@ pub fn rec_corrupt(a: &Args, out: &mut Out) {
                     }
                 }
             }
-            emit("pair-all", tried, acc, del, out);
+            emit("pair-all", tried, acc, del);
         } else {
             for _ in 0..pairs {
                 let i = r.gen_range(0..allowed.len());
@@ -480,7 +514,7 @@ pub fn rec_corrupt(a: &Args, out: &mut Out) {
                     del.push(json!([allowed[i], allowed[j]]));
                 }
             }
-            emit("pair-sampled", tried, acc, del, out);
+            emit("pair-sampled", tried, acc, del);
         }
         // odd weights 3..31
         let (mut acc, mut del) = (vec![], vec![]);
@@ -507,7 +541,7 @@ pub fn rec_corrupt(a: &Args, out: &mut Out) {
                 }
             }
         }
-        emit("odd", tried, acc, del, out);
+        emit("odd", tried, acc, del);
         // bursts: every length 2..=24 at every start inside one region, both end bits flipped
         let (mut acc, mut del) = (vec![], vec![]);
         let mut tried = 0;
@@ -537,8 +571,9 @@ pub fn rec_corrupt(a: &Args, out: &mut Out) {
                 }
             }
         }
-        emit("burst", tried, acc, del, out);
+        emit("burst", tried, acc, del);
     }
+    evs
 }
 
 // ---------------------------------------------------------------- replay of spec-generated behaviours (Gen_Stream)
